@@ -254,7 +254,7 @@ fn to_read(o: Op, rng: &mut StdRng) -> Op {
         "snap_create" | "snap_rollback" | "snap_release" => "snap_list",
         other => other,
     };
-    Op { k, sync: false, ..o }
+    Op { k, sync: false, ver: 0, ..o }
 }
 
 /// seeded plan: per-thread op lists; versions are unique per history
